@@ -24,13 +24,15 @@ def harnesses(tier, seed):
     jobs = []
     q = tier == 'quick'
     for decl in ('bounds', 'lower', 'upper', 'values', 'types_num', 'types_str', 'types_tuple', 'plain', 'bounds_types', 'check_valid', 'bounds_check_valid'):
-        for cand in ('num', 'none', 'str', 'bool'):
+        for cand in ('num', 'none', 'str', 'bool', 'list'):
             for allow_none in (False, True):
-                if q and cand in ('str', 'bool') and allow_none:
+                if q and cand in ('str', 'bool', 'list') and allow_none:
                     continue
                 jobs.append(dict(fn='h_assign', params=dict(decl=decl, cand=cand, allow_none=allow_none)))
     for ro in (False, True):
         jobs.append(dict(fn='h_readonly_alias', params=dict(read_only=ro)))
+    for exit_kind in ('normal', 'body_raises'):
+        jobs.append(dict(fn='h_temporary_alias', params=dict(exit_kind=exit_kind)))
     for exit_kind in ('normal', 'body_raises', 'entry_second_invalid', 'entry_first_invalid', 'entry_undeclared'):
         for nested in (False, True):
             jobs.append(dict(fn='h_temporary', params=dict(exit_kind=exit_kind, nested=nested)))
@@ -68,7 +70,7 @@ def _declare(ctx, opts, name, decl, allow_none, default):
         thr = ctx.real(name + '_thr', -100, 100)
 
         def chk(nm, value):
-            if value is not None and not isinstance(value, str) and bool(value > thr):
+            if value is not None and not isinstance(value, (str, list)) and bool(value > thr):
                 raise ValueError('check_valid: too large')
     kw = {}
     if default is not None:
@@ -76,6 +78,11 @@ def _declare(ctx, opts, name, decl, allow_none, default):
     opts.declare(name, values=vals, types=types, lower=lo, upper=up, check_valid=chk, allow_none=allow_none, **kw)
 
     def valid(v):
+        if isinstance(v, list):
+            # no declaration in this harness has types=list: a list can only be accepted by an option without values/types/bounds
+            if vals is not None or types is not None or lo is not None or up is not None:
+                return False
+            return True
         if not (v is None and allow_none):
             if vals is not None:
                 if isinstance(v, str):
@@ -119,11 +126,14 @@ def _candidate(ctx, cand, tag='c'):
         return None
     if cand == 'str':
         return 'auto' if ctx.boolean(tag + '_is_auto') else 'other'
+    if cand == 'list':
+        # a list of individually acceptable values (or an empty list): only acceptable where the declaration says types=list
+        return ['auto', 'auto'] if ctx.boolean(tag + '_nonempty') else []
     return bool(ctx.boolean(tag + '_flag'))
 
 
 def _same(ctx, name, got, want):
-    if isinstance(want, (str, type(None))) or isinstance(got, (str, type(None))):
+    if isinstance(want, (str, type(None), list)) or isinstance(got, (str, type(None), list)):
         ctx.check(name, got is want or got == want)
     elif isinstance(want, bool) or isinstance(got, bool):
         ctx.check(name, isinstance(got, bool) and got == want)
@@ -171,6 +181,36 @@ def h_readonly_alias(ctx, read_only):
         ctx.eq('alias_reads_target', opts['old'], opts['new'])
         ctx.eq('target_value', opts['new'], v if e is None else d)
     ctx.observe('ok', e is None)
+
+
+def h_temporary_alias(ctx, exit_kind):
+    """temporary() addressed through a deprecated alias: the aliased option is changed inside and restored afterwards"""
+    import warnings
+    opts = OptionsDictionary()
+    lo = ctx.real('lo', -100, 100)
+    d = ctx.real('d', -100, 100)
+    t = ctx.real('t', -100, 100)
+    ctx.assume((d >= lo) & (t >= lo))
+    opts.declare('new', default=d, lower=lo)
+    opts.declare('old', deprecation=('old is deprecated', 'new'))
+    raised = None
+    seen = {}
+    with warnings.catch_warnings():
+        warnings.simplefilter('ignore')
+        try:
+            with opts.temporary(old=t):
+                seen['new'], seen['old'] = opts['new'], opts['old']
+                if exit_kind == 'body_raises':
+                    raise _Boom()
+        except _Boom as err:
+            raised = err
+        ctx.check('exception_iff_expected', (raised is not None) == (exit_kind == 'body_raises'))
+        ctx.eq('inside_new', seen['new'], t)
+        ctx.eq('inside_old', seen['old'], t)
+        ctx.eq('new_restored', opts['new'], d)
+        ctx.eq('old_reads_restored', opts['old'], d)
+    ctx.check('context_cache_empty', _cache_empty(opts))
+    ctx.observe('new', opts['new'])
 
 
 def _cache_empty(opts):
